@@ -65,6 +65,16 @@ def Node.data : Node → Option Nat
   | .res _ _ _ d => d
   | .scope _ d _ => d
 
+/-- request head (`actix_http::RequestHead`) -/
+structure Head where
+  method : String
+  uri : String
+  version : String
+  peer : Option Nat
+  /-- in insertion order -/
+  headers : List (String × String)
+deriving DecidableEq
+
 structure Cfg where
   /-- id of the application-level data container (`AppInitService.app_data`) -/
   root : Nat
@@ -74,20 +84,18 @@ structure Cfg where
   containers : List (Nat × List (Nat × Nat))
   /-- nesting depth bound of the route tree (fuel for the recursive descent) -/
   depth : Nat
+  /-- app-level middleware that runs before routing and may attach a data container with the
+  public `ServiceRequest::add_data_container` (e.g. per-tenant data keyed on a header):
+  request head ↦ container id to push -/
+  mw : Head → Option Nat := fun _ => none
+  /-- contents of containers created at request time by the middleware (not in `containers`) -/
+  dynContainer : Nat → Option (List (Nat × Nat)) := fun _ => none
 
 /-- the root of the `ResourceMap`: `ResourceMap::new(ResourceDef::prefix(""))` -/
 def Cfg.rootNode (cfg : Cfg) : Node := .scope ⟨"", [], true⟩ none cfg.kids
 
 /-! ## Request head, incoming request, pooled allocation -/
 
-structure Head where
-  method : String
-  uri : String
-  version : String
-  peer : Option Nat
-  /-- in insertion order -/
-  headers : List (String × String)
-deriving DecidableEq
 
 /-- what `AppInitService::call` receives: `actix_http::Request` = head + conn_data + req_data -/
 structure Req where
@@ -386,7 +394,10 @@ def appDataGet (cfg : Cfg) (i : Inner) (t : Nat) : Option Nat :=
   i.appData.reverse.findSome? fun c =>
     match cfg.containers.lookup c with
     | some m => extGet m t
-    | none => none
+    | none =>
+      match cfg.dynContainer c with
+      | some m => extGet m t
+      | none => none
 
 /-- `&path[start..end]` -/
 def slice (p : List Char) (s e : Nat) : List Char := (p.drop s).take (e - s)
@@ -401,8 +412,10 @@ def showOptS : Option String → String
 
 /-- header names the dump looks up -/
 def probeHeaders : List String := ["x-a", "x-b", "x-g", "host"]
-/-- type tags of the probe types (extensions `E1..E3`, app data `A,B,C`) -/
+/-- type tags of the extension probe types `E1..E3` -/
 def probeTags : List Nat := [1, 2, 3]
+/-- type tags of the app-data probe types `A,B,C` and the middleware's tenant marker `T` -/
+def dataTags : List Nat := [1, 2, 3, 4]
 
 /-- everything the dumping handler / middleware reads from an `HttpRequest`, as one canonical string -/
 def dump (cfg : Cfg) (i : Inner) : String :=
@@ -415,7 +428,7 @@ def dump (cfg : Cfg) (i : Inner) : String :=
   ";U=" ++ String.ofList i.path.unprocessed ++
   ";X=" ++ joinWith "," (probeTags.map fun t => showOpt (extGet i.extensions t)) ++
   ";c=" ++ showOpt i.connData ++
-  ";D=" ++ joinWith "," (probeTags.map fun t => showOpt (appDataGet cfg i t)) ++
+  ";D=" ++ joinWith "," (dataTags.map fun t => showOpt (appDataGet cfg i t)) ++
   -- `connection_info().host()` (cached in the request extensions on first use): `Host` header,
   -- else `AppConfig::default().host()`
   ";ci=" ++ (match headerGet i.head.headers "host" with | some h => h | none => "localhost:8080") ++
@@ -523,6 +536,8 @@ structure HOut where
 
 /-- one request through middleware → routing → handler → middleware, on its own allocation -/
 def runHandler (cfg : Cfg) (i0 : Inner) (acts : List Act) : HOut :=
+  -- app-level middleware, before routing: `req.add_data_container(..)` if the head asks for it
+  let i0 := pushData i0 (cfg.mw i0.head)
   let d0 := dump cfg i0                          -- app-level middleware, before routing
   let i1 := route cfg (cfg.depth + 1) cfg.kids i0
   let d1 := dump cfg i1                          -- handler, on entry
@@ -622,6 +637,11 @@ def theCfg : Cfg :=
   { root := 0
     depth := 3
     containers := [(0, [(1, 0)]), (1, [(2, 1)]), (2, [(1, 2), (3, 2)]), (3, [(2, 3)]), (4, [(3, 4)])]
+    -- `x-t: n` ⇒ the middleware attaches a fresh container holding `DT(n)` (type tag 4)
+    mw := fun h => match headerGet h.headers "x-t" with
+      | some v => v.toNat?.map (100 + ·)
+      | none => none
+    dynContainer := fun c => if c ≥ 100 then some [(4, c - 100)] else none
     kids := [
       .res ⟨"/", [.lit (chars "/")], false⟩ (some "root") none none,
       .res ⟨"/u/{id}", [.lit (chars "/u/"), .param "id"], false⟩ (some "user") none (some 1),
